@@ -28,7 +28,7 @@ CHECKS = {
         ref="5 C02", note=WRAP_NOTE),
     "C05": dict(
         technique="TLA+ contracts spec/Limiter.tla (+ spec/Partition.tla for shares) explored exhaustively by TLC, every transition replayed on real DefaultLimiters with a scripted limit algorithm; recorded random histories over all four strategy kinds validated by TLC (LimiterTrace, PartitionTrace)",
-        text="InvEnforce (strategy limit = max(1, estimate), every registered bin = Share(limit, fraction)) is checked by TLC in every state of the contract graph and after every call of the recorded histories, with estimate trajectories containing 0, negative and repeated values, for the simple, precise, lookup and predicate strategies; the Partition graph (SetLimit / add / remove) is replayed exhaustively for the share half.",
+        text="InvEnforce (strategy limit = max(1, estimate), every registered bin = Share(limit, fraction)) is checked by TLC in every state of the contract graph and after every call of the recorded histories, with estimate trajectories containing 0, negative and repeated values, for the simple, precise, lookup and predicate strategies; the Partition graph (SetLimit / add / remove) is replayed exhaustively for the share half. Concurrently: SetLimit overlapping AddPartition (sampled behind a start barrier, and forced by holding a partition's own mutex while both are started) must leave every registered share at the limit in force - the final shares are part of the history TLC linearises (PartitionLin).",
         ref="5 C05", note=LIM_NOTE),
     "C09": dict(
         technique="deterministic TLA+ contract of the window fold and close rule (spec/Limiter.tla) explored exhaustively by TLC with the real minimum window size; every transition replayed on a real DefaultLimiter on a virtual clock with a recording limit algorithm; random histories (including bursts of concurrent completions) validated by TLC (LimiterTrace); implementation-shaped model of concurrent completions (spec/WindowConc.tla: fold and update as separate critical sections) checked by TLC and replayed edge by edge on the real limiter through the schedule point default.afterFold",
@@ -36,24 +36,24 @@ CHECKS = {
         ref="5 C09", note=LIM_NOTE),
     "C03": dict(
         technique="TLA+ contract (spec/Partition.tla) checked by TLC; every transition of the TLC state graph replayed on the real strategies; recorded random histories validated against the contract by TLC (PartitionTrace)",
-        text="The admission rule, shares and bin accounting are a deterministic TLA+ contract. TLC enumerates its full state graph for small constants and the harness executes every transition on the real lookup and predicate strategies comparing result and projected state; long random histories with large limits and dynamic partitions are validated in the other direction by TLC.",
+        text="The admission rule, shares and bin accounting are a deterministic TLA+ contract. TLC enumerates its full state graph for small constants and the harness executes every transition on the real lookup and predicate strategies comparing result and projected state; long random histories with large limits and dynamic partitions are validated in the other direction by TLC. Matchers are the library's own (case-sensitive and case-insensitive, the folding given to the model as a map); keys differ in case only, requests come without a key or with a non-string key. Free-running concurrent histories (TryAcquire / release / SetLimit / add / remove from several goroutines) are accepted only if TLC finds a linearisation under the contract (PartitionLin).",
         ref="5 C03",
         note="Bounded constants in the exhaustive part (3 partition objects, quarters, limits 1..4, <=5-7 tokens); dyadic fractions so float rounding cannot differ; sequential drivers (the strategy serialises calls behind one mutex)."),
     "C10": dict(
         technique=WRAP_TECH,
-        text="TLC checks NoLostWakeup (no caller asleep while capacity is free in a stable state) and TerminalAllServed on the implementation-shaped models of the blocking, deadline and queue limiters for every interleaving of 2-4 callers with releases, timers and cancellations; the as-delivered designs are kept as negative configurations that must violate it. Every transition of those graphs is then forced on the real code (gates + virtual clock) and the recorded executions are accepted or rejected by the contract. The same as a temporal property: under weak fairness of the library's own steps only (LiveSpec), a caller asleep while capacity is free leads to it being woken or the capacity taken (WakeUp), and with arrivals and completions fair every caller is served (ServeSpec, AllServed); the as-delivered designs violate WakeUp. An unjustified refusal is reported and the execution is judged on, so that a sleeper it leaves behind is seen too.",
+        text="TLC checks NoLostWakeup (no caller asleep while capacity is free in a stable state) and TerminalAllServed on the implementation-shaped models of the blocking, deadline and queue limiters for every interleaving of 2-4 callers with releases, timers and cancellations; the as-delivered designs are kept as negative configurations that must violate it. Every transition of those graphs is then forced on the real code (gates + virtual clock) and the recorded executions are accepted or rejected by the contract. The same as a temporal property: under weak fairness of the library's own steps only (LiveSpec), a caller asleep while capacity is free leads to it being woken or the capacity taken (WakeUp), and with arrivals and completions fair every caller is served (ServeSpec, AllServed); the as-delivered designs violate WakeUp. An unjustified refusal is reported and the execution is judged on, so that a sleeper it leaves behind is seen too. Real time: an arrival parked right after its failed attempt while the holder completes must end up served (release-arrival scenarios, all four wrapper kinds, three outcomes).",
         ref="5 C10", note=WRAP_NOTE),
     "C11": dict(
         technique=WRAP_TECH + "; free-running seeded scenarios over every constructor (configuration, defaults, deprecated constructors, pools)",
-        text="The contract checks every hand-off choice against the callers still queued in arrival order (oldest for FIFO, newest for LIFO), with the expected order per constructor taken from its name and documentation. Explored: all interleavings of the queue model (FIFO and LIFO, give-ups racing with hand-offs) replayed on the real limiter, plus seeded histories for all 14 ways of constructing a queue limiter or pool.",
+        text="The contract checks every hand-off choice against the callers still queued in arrival order (oldest for FIFO, newest for LIFO), with the expected order per constructor taken from its name and documentation. Explored: all interleavings of the queue model (FIFO and LIFO, give-ups racing with hand-offs) replayed on the real limiter, plus seeded histories for all 14 ways of constructing a queue limiter or pool. One scenario in three passes a single context value for all callers (a waiter is not identified by its context; judged by who is granted when, with staggered time-outs).",
         ref="5 C11", note=WRAP_NOTE),
     "C12": dict(
         technique=WRAP_TECH,
-        text="TLC checks BacklogBounded and BacklogExact (backlog = callers blocked, in stable states) on the queue model including hand-offs racing with time-outs and cancellations; the contract checks the reported queue_size gauge against the callers actually blocked after every stable step of the replayed and free-running executions, and that a refusal at a full backlog takes no virtual time. Arrivals racing inside the attempt-and-push section (one parked there in real time, two more started) must not take the backlog over its maximum.",
+        text="TLC checks BacklogBounded and BacklogExact (backlog = callers blocked, in stable states) on the queue model including hand-offs racing with time-outs and cancellations; the contract checks the reported queue_size gauge against the callers actually blocked after every stable step of the replayed and free-running executions, and that a refusal at a full backlog takes no virtual time. Arrivals racing inside the attempt-and-push section (one parked there in real time, two more started) must not take the backlog over its maximum. An arrival parked inside its attempt while queued callers are cancelled (still present, waiting for the limiter mutex to leave) finds the backlog at its maximum and is refused (cancel-arrival scenarios, rule strictfull).",
         ref="5 C12", note=WRAP_NOTE),
     "C13": dict(
         technique=WRAP_TECH,
-        text="Virtual-clock bounds: TLC checks DeadlineBound, TimeoutBound, CancelBound and NoEarlyRefusal on the models with Tick allowed between any two gates; the contract rejects a caller blocked at or past its bound in a stable state (class bound) and a refusal without a reason (class early) in every recorded execution, with instants exact to the tick. Temporal form under LiveSpec: a cancelled sleeper returns (CancelWakes), nobody sleeps past the deadline (DeadlineWakes; violated by the as-delivered design) or past a due timer (TimeoutWakes). Every other scenario context also carries a far deadline of its own.",
+        text="Virtual-clock bounds: TLC checks DeadlineBound, TimeoutBound, CancelBound and NoEarlyRefusal on the models with Tick allowed between any two gates; the contract rejects a caller blocked at or past its bound in a stable state (class bound) and a refusal without a reason (class early) in every recorded execution, with instants exact to the tick. Temporal form under LiveSpec: a cancelled sleeper returns (CancelWakes), nobody sleeps past the deadline (DeadlineWakes; violated by the as-delivered design) or past a due timer (TimeoutWakes). Every other scenario context also carries a far deadline of its own. Real time: a caller that arrives while a completion is parked in mid-release and is then cancelled must have returned when the step has settled (rule promptcancel); the real-time scenarios run first, and what they establish stands if a change stalls the virtual-clock replays.",
         ref="5 C13", note=WRAP_NOTE),
     "C04": dict(
         technique="TLA+ contract of the limit algorithms as a trace acceptor (spec/LimitTrace.tla, class bounds) validating recorded sample sequences of every algorithm bare, traced and windowed; exact TLA+ models of AIMD (spec/Aimd.tla) and of Vegas in the float-exact sub-domain (spec/VegasModel.tla) model-checked by TLC and replayed transition by transition on the real objects",
@@ -69,11 +69,11 @@ CHECKS = {
         ref="5 C07", note=ALGO_NOTE + " Vegas probe multiplier >= 4 (see DESIGN section 7: with 1 or 2 nothing can grow below an estimate of 2, which C15's own bound forces)."),
     "C08": dict(
         technique="TLC checks Monotone on the exact Vegas model (spec/VegasModel.tla) for every reachable state and every RTT pair; recorded twin-instance experiments (identical history, jitter forced through verif accessors, last sample differing only in RTT) validated by spec/LimitTrace.tla (class monotone)",
-        text="Relational (two-run) property: for Vegas, Gradient and Gradient2, two identically prepared real instances receive a last sample with RTT lo < hi (both at or above the baseline, neither a probe): the contract rejects esthi > estlo. 45 RTT pairs around the thresholds per prepared state, 90-600 prepared states; plus the universally quantified invariant on the Vegas integer model. Half of the prepared histories carry start times, and the final sample's start time is placed so that some of the compared RTTs make it complete just before an earlier completion and some after.",
+        text="Relational (two-run) property: for Vegas, Gradient and Gradient2, two identically prepared real instances receive a last sample with RTT lo < hi (both at or above the baseline, neither a probe): the contract rejects esthi > estlo. 45 RTT pairs around the thresholds per prepared state, 90-600 prepared states; plus the universally quantified invariant on the Vegas integer model. Half of the prepared histories carry start times, and the final sample's start time is placed so that some of the compared RTTs make it complete just before an earlier completion and some after. One Gradient history in two ends one to four healthy samples after a forced baseline probe (minimums up to 40, well above the queue allowance), so the pair is judged on the state a probe leaves behind.",
         ref="5 C08", note=ALGO_NOTE),
     "C15": dict(
         technique="TLC checks BaselineIsMin on the exact Vegas model; recorded sample sequences (real random jitter) validated by spec/LimitTrace.tla (class baseline): baseline <= RTT, baseline is an RTT seen since the last reset, resets recur within the bound",
-        text="After every recorded sample of Vegas and Gradient the contract compares the exactly encoded baseline with the sample's RTT and with the set of RTTs seen since the last reset (probe observed through the verif accessors), and counts samples since the last reset against multiplier x largest estimate (Vegas) / 2 x interval (Gradient).",
+        text="After every recorded sample of Vegas and Gradient the contract compares the exactly encoded baseline with the sample's RTT and with the set of RTTs seen since the last reset (probe observed through the verif accessors), and counts samples since the last reset against multiplier x largest estimate (Vegas) / 2 x interval (Gradient). Vegas is also built through its default constructors and with the take-the-default multipliers 0 and -1.",
         ref="5 C15", note=ALGO_NOTE + " Baselines are compared with the float64 value of the RTT (identical below 2^53)."),
     "C16": dict(
         technique="recorded sample / registration sequences of all limit implementations validated by spec/LimitTrace.tla (class notify); exact AIMD model carries the notified value (invariant Notified) and is replayed on the real AIMDLimit",
@@ -85,11 +85,11 @@ CHECKS = {
         ref="5 C18", note="Numerical accuracy of the floating-point primitives is not modelled (order and equality of exact bit patterns only); positive finite samples."),
     "C14": dict(
         technique="TLA+ contract of one intercepted operation (spec/Grpc.tla); TLC enumerates the full product of inputs (GrpcMC) and every case is executed on the real interceptors with recording doubles; recorded random operation sequences and full-duplex stream scenarios validated by TLC (GrpcTrace); implementation-shaped model of two operations in flight on one stream (spec/GrpcStream.tla)",
-        text="All 3 456 combinations of operation (unary server / unary client / RecvMsg / SendMsg) x grant x inner error x classifier answer x limit-exceeded code x default-or-custom classifiers x default-or-custom limit-exceeded classifier x name/tag options absent / first / last x context live / cancelled during the call / expired are executed against the real interceptors with recording limiter/listener doubles and fake handler, invoker and ServerStream; the observation (limiter consulted, wrapped call run, listener method on which token, returned value / status code) must equal the contract's. 3k-20k random operations are validated in the other direction. Full duplex: one RecvMsg and one SendMsg overlapping on the same wrapped stream in four orders of entering and leaving the transport x every grant / error / classification / option combination (2 560 operations), each operation's own observation validated against the same contract; the design-level model spec/GrpcStream.tla (token in a local variable: exactly once; token parked in a per-stream field: violated) is model-checked next to it.",
+        text="All 10 368 combinations of operation (unary server / unary client / RecvMsg / SendMsg) x grant x inner error x classifier answer x limit-exceeded code x the classifier's error value (plain / gRPC status of another code / wrapped status) x default-or-custom classifiers x default-or-custom limit-exceeded classifier x name/tag options absent / first / last x context live / cancelled during the call / expired are executed against the real interceptors with recording limiter/listener doubles and fake handler, invoker and ServerStream; the observation (limiter consulted, wrapped call run, listener method on which token, returned value / status code) must equal the contract's. 3k-20k random operations are validated in the other direction. Full duplex: one RecvMsg and one SendMsg overlapping on the same wrapped stream in four orders of entering and leaving the transport x every grant / error / classification / option combination (2 560 operations), each operation's own observation validated against the same contract; the design-level model spec/GrpcStream.tla (token in a local variable: exactly once; token parked in a per-stream field: violated) is model-checked next to it.",
         ref="5 C14", note="Interceptors are stateless, so sequences are independent operations; no network; the stream classifiers are taken as named (RecvMsg -> server stream classifier, SendMsg -> client stream classifier)."),
     "C20": dict(
         technique="implementation-shaped TLA+ model of the registries' poller life cycle (spec/Registry.tla) model-checked by TLC with the as-delivered and flag-only variants as negative configurations; recorded Start/Stop/Register/advance/sample sequences of both bundled registries on a virtual clock validated by TLC against spec/RegistryTrace.tla; emission checked through the Limiter contract (in-flight sample at the admission decision, limit gauge)",
-        text="TLC checks AtMostOnePoller, PollOnlyWhileStarted, StopTerminates (no deadlock with a poll in progress) and NoPollerAfterStop for sequential and two concurrent callers; the code as delivered (started never set) and the naive repair (flag only: deadlock) must fail. Real go-metrics and Datadog registries (statsd client writing to a buffer) are driven through seeded call sequences in a synctest bubble: polls per gauge per ticker instant, forwarding of distribution/timing/count samples to the backend metric of the right kind under the prefixed name, and a poller left after the last Stop are compared with the contract after every call. Every processed sample of every limit algorithm (probes included) emits one RTT, one in-flight and a drop increment iff drop (LimitTrace class metrics). A grant by a partitioned strategy emits one in-flight sample tagged with the partition charged, valued at that partition's count (Partition contract); in free-running concurrent histories of the simple and precise strategies the sample of every acquire must be the count at the call's linearisation point (GateTrace with CheckN).",
+        text="TLC checks AtMostOnePoller, PollOnlyWhileStarted, StopTerminates (no deadlock with a poll in progress) and NoPollerAfterStop for sequential and two concurrent callers; the code as delivered (started never set) and the naive repair (flag only: deadlock) must fail. Real go-metrics and Datadog registries (statsd client writing to a buffer) are driven through seeded call sequences in a synctest bubble: polls per gauge per ticker instant, forwarding of distribution/timing/count samples to the backend metric of the right kind under the prefixed name, and a poller left after the last Stop are compared with the contract after every call. Every processed sample of every limit algorithm (probes included) emits one RTT, one in-flight and a drop increment iff drop (LimitTrace class metrics). A grant by a partitioned strategy emits one in-flight sample tagged with the partition charged, valued at that partition's count (Partition contract); in free-running concurrent histories of the simple and precise strategies the sample of every acquire must be the count at the call's linearisation point (GateTrace with CheckN). Naming: for every constructor (go-metrics, Datadog over a caller's client, Datadog by address against a fake agent on a loopback UDP socket) and requested prefix (empty, with and without trailing dot) a listener's and a polled gauge's metric must arrive under exactly EffPrefix + id (RegistryTrace Naming).",
         ref="5 C20", note="Sequential callers in the recorded sequences; virtual clock; per-sample emission of the limit algorithms is covered by the limit traces."),
     "C19": dict(
         technique=WRAP_TECH + "; free-running pool scenarios (fixed and generic pools, FIFO/LIFO/random) with 'everyone is served' runs",
